@@ -766,14 +766,17 @@ func (c11) Exec(c string) (string, []Fail) {
 					for _, t := range lows {
 						maxL = max(maxL, len(t))
 					}
-					every := false // every origin: thorough tier, one case out of 8 (and the short corpus cases)
+					every := false // every origin: thorough tier, one case out of 80 (one out of 8 on circles of at most 80 symbols)
 					if c11Tier == "thorough" {
 						h := 0
 						for k := 0; k < len(c); k++ {
 							h = (h*31 + int(c[k])) & 0xffff
 						}
-						every = h%8 == 0 || len(c) < 260
-						nrot = 12
+						every = h%80 == 0 || (maxL <= 80 && h%8 == 0)
+						nrot = 3
+						if h%8 == 1 {
+							nrot = 12
+						}
 						if every {
 							nrot = maxL - 1
 							stat("rotation-every-origin")
@@ -786,7 +789,7 @@ func (c11) Exec(c string) (string, []Fail) {
 							var r int
 							if every {
 								r = 1 + q%max(L-1, 1)
-							} else if c11Tier == "thorough" {
+							} else if nrot == 12 {
 								r = 1 + (q*(L-1))/12 + (i % 3)
 							} else {
 								switch (q + i) % 3 {
@@ -1422,7 +1425,7 @@ func (c11) Gen(rng *rand.Rand, tier string, emit func(string)) {
 	// ---- random ----------------------------------------------------------------------------------
 	n := 2500
 	if tier == "thorough" {
-		n = 6000
+		n = 5400
 	}
 	for it := 0; it < n; it++ {
 		var o c11Opt
@@ -1573,7 +1576,7 @@ func (c11) Gen(rng *rand.Rand, tier string, emit func(string)) {
 	// as the maximal length allows (gap in max-|lf-lr| .. max), in either orientation, linear templates
 	nw := 150
 	if tier == "thorough" {
-		nw = 400
+		nw = 300
 	}
 	for k := 0; k < nw; k++ {
 		var o c11Opt
@@ -1651,7 +1654,7 @@ func (c11) Gen(rng *rand.Rand, tier string, emit func(string)) {
 	// the command without --fragmented on short templates: option mapping of CLIPCR, linear and circular
 	ns := 60
 	if tier == "thorough" {
-		ns = 200
+		ns = 150
 	}
 	for k := 0; k < ns; k++ {
 		fl, rl := 3+rng.Intn(5), 3+rng.Intn(5)
